@@ -77,3 +77,9 @@ Example c10_refusal_example :
   /\ SingletonRegistry.refused [mkReq 1 (Some 20) 11; mkReq 0 (Some 20) 10; mkReq 2 None 12] = true
   /\ SingletonRegistry.refused [mkReq 0 (Some 20) 10; mkReq 2 None 12; mkReq 0 (Some 20) 10] = false.
 Proof. vm_compute. repeat split. Qed.
+
+(* the extended model (Model/FactoryX.v) does not read the enumeration order either *)
+From IocVerif Require Import Model.FactoryX.
+Theorem c10_order_irrelevant_extended : forall s x o o',
+  run_xt repaired (with_oracle s o) x = run_xt repaired (with_oracle s o') x.
+Proof. intros s x o o'. reflexivity. Qed.
